@@ -47,6 +47,10 @@ type gctx struct {
 	salt  int64      // per-case salt of the distinct values (drawn at first use)
 	uniq  int64      // distinct values handed out so far
 	uniqP int        // 0..10: how many of the attribute slots get a value no other slot has
+	// rootDecl: namespace declarations w:document has to carry for what was generated below it (math.go)
+	rootDecl []Attr
+	// shapes: producer shapes the part contains (math.go, tables.go); recorded in XMLPart.Ops as "shape:..." (evidence only)
+	shapes []string
 }
 
 func (g *gctx) qname(local string) string {
@@ -196,6 +200,11 @@ func (g *gctx) elem(local string, depth int, cols int) Node {
 		cnt := 0
 		if max, ok := repeatable[k]; ok {
 			cnt = rapid.IntRange(0, max).Draw(t, "count")
+			if depth <= 3 && k != "tbl" && chance(t, "count-past", 12) {
+				// counts past the usual thresholds (the 10th / 11th item, more than 16 / 32 / 64 entries), rarely
+				cnt = []int{9, 10, 11, 16, 17, 33, 65}[pick(t, "count-past-n", 7)]
+				g.shape("count>=9:" + k)
+			}
 			if k == "tc" && cols >= 0 {
 				cnt = cols
 			}
@@ -245,6 +254,16 @@ func (g *gctx) mainTree() *Node {
 			}
 			continue
 		}
+		if chance(t, "producer-table", 170) {
+			// tables as word processors write them: merged regions, nested tables between paragraphs, sizes past 9 / 32 / 64 (tables.go)
+			body.C = append(body.C, g.producerTable(0))
+			continue
+		}
+		if chance(t, "math-block", 110) {
+			// formula paragraphs, whose inside the reader keeps as text (math.go)
+			body.C = append(body.C, g.mathParagraph())
+			continue
+		}
 		if rapid.IntRange(0, 6).Draw(t, "edge-table") == 0 {
 			// explicit degenerate table shapes: no rows, only properties / grid, rows without cells
 			body.C = append(body.C, edgeTable(rapid.IntRange(0, len(edgeTableShapes)-1).Draw(t, "edge-shape")))
@@ -257,6 +276,17 @@ func (g *gctx) mainTree() *Node {
 	if rapid.IntRange(0, 5).Draw(t, "declare-x") == 0 {
 		root.A = append(root.A, Attr{N: "xmlns:x", V: "urn:x"}, Attr{N: "xmlns:w14", V: "http://schemas.microsoft.com/office/word/2010/wordml"},
 			Attr{N: "xmlns:ns0", V: nsW}, Attr{N: "xmlns:mc", V: "http://schemas.openxmlformats.org/markup-compatibility/2006"})
+	}
+	for _, d := range g.rootDecl {
+		dup := false
+		for _, a := range root.A {
+			if a.N == d.N {
+				dup = true
+			}
+		}
+		if !dup {
+			root.A = append(root.A, d)
+		}
 	}
 	return &root
 }
@@ -543,6 +573,9 @@ func genMainPart(t *rapid.T, nfaults int) *XMLPart {
 			g.applyFault(p, FaultOps[pick(t, "fault-instead", len(FaultOps))]) // not applicable to this tree: one other try
 		}
 	}
+	for _, s := range g.shapes {
+		p.Ops = append(p.Ops, "shape:"+s)
+	}
 	return p
 }
 
@@ -596,6 +629,9 @@ var relTypes = []string{"image", "hyperlink", "header", "footer", "numbering", "
 // rId1 taken by another type, ids that collide with whatever a "next free id" search may try, duplicates, odd spellings.
 func genRelsPart(t *rapid.T, pkgLevel bool) *XMLPart {
 	n := rapid.IntRange(0, 7).Draw(t, "nrels")
+	if chance(t, "nrels-past", 40) {
+		n = []int{9, 10, 11, 17, 33, 65}[pick(t, "nrels-past-n", 6)] // the 10th / 11th relationship, more than 16 / 32 / 64
+	}
 	strat := rapid.SampledFrom(RelIDStrategies).Draw(t, "relids")
 	ids := make([]string, n)
 	num := func(k int) string { return "rId" + strconv.Itoa(k) }
@@ -667,7 +703,7 @@ func genRelsPart(t *rapid.T, pkgLevel bool) *XMLPart {
 	return &XMLPart{Root: &root, Ops: ops}
 }
 
-var mediaNames = []string{"image", "image.", "image.png", "image0.png", "image7.png", "image007.jpeg", "image-5.png", "image+3.png", "image99999999999999999999.png", "image2147483647.png",
+var mediaNames = []string{"image9.png", "image10.png", "image11.png", "image99.png", "image100.png", "image", "image.", "image.png", "image0.png", "image7.png", "image007.jpeg", "image-5.png", "image+3.png", "image99999999999999999999.png", "image2147483647.png",
 	"image 4.png", "image1.PNG", "Image9.png", "image3", "image12.tar.gz", "picture.png", "image१.png", "image0x10.png", "image1e3.png", "image9223372036854775807.png", "sub/image5.png"}
 
 var nonZips = []string{"", "x", "hello, this is not a zip archive", "PK", "PK\x03\x04", "PK\x05\x06", "PK\x05\x06\x00\x00\x00\x00\x00\x00\x00\x00\x00\x00\x00\x00\x00\x00\x00\x00\x00\x00",
@@ -709,7 +745,7 @@ func genContainerOps(t *rapid.T) []COp {
 		case "media":
 			op.Name = rapid.SampledFrom(mediaNames).Draw(t, "media")
 		case "extra":
-			op.Name = rapid.SampledFrom([]string{"word/settings.xml", "word/numbering.xml", "word/footnotes.xml", "word/header1.xml", "customXml/item1.xml", "../evil.xml", "/abs.xml", "word\\document.xml",
+			op.Name = rapid.SampledFrom([]string{"word/settings.xml", "word/numbering.xml", "word/footnotes.xml", "word/header1.xml", "word/header2.xml", "word/footer1.xml", "word/media/image2.png", "word/media/image10.png", "customXml/item1.xml", "../evil.xml", "/abs.xml", "word\\document.xml",
 				"WORD/DOCUMENT.XML", "word/document.xml ", "", "a/b/c/d/e/f.bin", "word/media/", "[content_types].xml", "docProps/thumbnail.jpeg"}).Draw(t, "extra")
 			op.S = rapid.SampledFrom([]string{"", "<x/>", "not xml", "<w:settings xmlns:w=\"" + nsW + "\"/>", "<w:numbering xmlns:w=\"" + nsW + "\"><w:num w:numId=\"1\"/></w:numbering>", "\x00\x01\x02"}).Draw(t, "extra-data")
 		case "rotate":
@@ -796,6 +832,14 @@ func genCase(t *rapid.T) Case {
 		if rapid.IntRange(0, 9).Draw(t, "with-main") < 3 {
 			c.Parts = map[string]*XMLPart{nMain: genMainPart(t, rapid.IntRange(0, 1).Draw(t, "nfaults"))}
 		}
+	}
+	// two documents opened from the same bytes, edited and saved one after the other (what one leaves behind meets the other)
+	if c.Gen != "" && len(c.Pre) == 0 && chance(t, "twin", 45) {
+		c.Twin = true
+	}
+	// a drawn script of edits on the opened tables (tables.go), for the cases that carry a generated main part
+	if _, ok := c.Parts[nMain]; ok && chance(t, "table-edits", 450) {
+		c.TEdits = genTEdits(t)
 	}
 	return c
 }
